@@ -1,4 +1,4 @@
-HOOK_COMMITS = ["2198a1a"]
+HOOK_COMMITS = ["2198a1a"]  # only hook commit; every other commit in /repo is an unguarded "fix:" repair (see KNOWN_FINDINGS.json _fixed)
 NOTES = ("All checks: ./check <ID> --tier quick|thorough [--seed N]; VERIF_SEED/VERIF_TIER honoured. "
          "Ledger of known findings: KNOWN_FINDINGS.json (+ known/<ID>.json.gz exact case lists); "
          "fixed entries are listed under _fixed and suppress nothing.")
@@ -40,3 +40,109 @@ claim("C16", "exploration",
       "unchanged, and RangeError/TypeError by name.",
       "Trusts V8 for the pinned tables; ASCII-only case mapping and code-point indexing are documented engine "
       "restrictions and kept out of the grid.")
+
+
+_V8 = ("Trusts V8 (node 20, strict mode) as the ECMAScript reference for the pinned expected-outcome tables (SHA-256 of the case "
+       "list) and the serialiser mc/core/ser.py; inputs beyond the stated bounds are not explored.")
+claim("C01", "fault_enumeration",
+      "virtual-clock deadline injection: the deadline is placed at an exact interpreter/regex step and the product "
+      "construct x place x wrapping x T x phase is enumerated exhaustively on the real engine",
+      "For 13 never-terminating constructs in 32 places where script code can run, 5 try wrappings, several deadlines and "
+      "phase offsets (plus 4 catastrophic regexes through 14 entry points and regexes kept across evals) every run ends in "
+      "exactly TimeLimitError with at most 1016 interpreter steps / 216 steps of one regex run after the deadline.",
+      "Time is virtual (1 unit per step through the MICROJS_VERIF hooks); a loose 40-script real-clock subset guards the link to seconds.")
+claim("C02", "exploration",
+      "bounded exhaustive enumeration of recursion shapes x M, and of every body of the control-flow skeleton grammar run 50 "
+      "times in a driver loop with operand/handler/call depths measured at the back edge on the real VM",
+      "31 recursion shapes x M in {1e4,1e5,1e6} end in exactly MemoryLimitError within 4M+2e5 steps; every depth-1/2 "
+      "skeleton body (and a seed-selected slice of depth 3) in 3 placements leaves identical stack depths at every iteration.",
+      "Interpreter memory = operand, call and handler stacks (what the engine accounts); host bytes are not measured.")
+claim("C03", "exploration",
+      "bounded exhaustive product receiver kind x access form x every internal/dunder attribute name (discovered by "
+      "introspection), differential against fresh control names; plus an object-graph reachability walk after a program corpus",
+      "On 32 receiver kinds and 16 access forms every attribute name of every microjs class/instance and ~100 Python dunders "
+      "behaves exactly like an unknown property; after 300+ programs every value reachable from the globals, every eval "
+      "result and every host-function argument is a JavaScript value.",
+      "Names that are also ECMAScript property names are judged by other properties; transient operand-stack values are not inspected.")
+claim("C04", "exploration",
+      "bounded exhaustive enumeration of character soups, token sequences, all prefixes and single-token mutations of the "
+      "corpus, and built-in x argument-vector grid; oracle = exception class and position invariants",
+      "Every soup string up to length 4 (length 5 in strata), every 3-token sequence, every prefix and single-token edit of "
+      "the small corpus programs and every built-in (discovered) x argument vector of length <= 2 over a 16-value grid "
+      "returns or raises a JSError; syntax positions lie inside the text and shift exactly with leading newlines/spaces.",
+      "No reference semantics: only totality and position invariants are judged.")
+claim("C05", "exploration",
+      "bounded exhaustive enumeration of control-flow skeletons (construct x construct x exit x position x call context), "
+      "evaluation-order, closure, hoisting and completion-value families against V8-derived tables",
+      "36k two-level skeletons (17x17 constructs, 9 exits, 3 positions, 8 expression contexts), evaluation-order, closure, "
+      "hoisting and completion families (thorough: 220k three-level skeletons) produce V8's log, completion value or error.", _V8)
+claim("C07", "exploration",
+      "bounded exhaustive enumeration throw site x handler placement x expression context and of try/catch/finally shapes "
+      "(nested two deep) against V8-derived tables, plus a metamorphic line/column shift check",
+      "95 throw sites x 19 placements x 14 contexts and 205 try shapes x 7 enclosings (nested two deep) log exactly V8's "
+      "sequence (finally exactly once, right handler, value identity, error constructor and name).", _V8)
+claim("C08", "model_checking",
+      "explicit-state search over operation histories of an object graph (43-statement alphabet), every history executed on "
+      "the real engine and its 144-probe observation compared with the reference (V8 tables); call-form x function-kind product",
+      "All histories of length <= 2 over 43 statements, length 3 over a 20-statement core (thorough: full depth 3, depth 4 "
+      "kernel) and 1104 call-form programs observe exactly the reference state (reads, in, own tests, enumeration, prototype "
+      "identity, instanceof).", _V8)
+claim("C10", "exploration",
+      "bounded exhaustive enumeration of pattern strings over the metacharacter vocabulary (constructor and literal), flag "
+      "strings, single-edit mutations, count/group sweeps, and catastrophic families with regex steps counted through the hook",
+      "Every pattern string up to length 4 (length 5 in strata), every flag string up to length 3, all single edits of 200 "
+      "valid patterns and size sweeps construct or raise a catchable SyntaxError; catastrophic families stop within the "
+      "poll budget with a time limit and within step_limit x positions without.",
+      "Work is measured in regex-VM steps and virtual polls, not seconds.")
+claim("C11", "exploration",
+      "bounded exhaustive enumeration of JSON-like values (depth/width bound) through set/get/eval and as literals, argument "
+      "vectors to an exposed callable, and all set/eval/get histories to depth 4 against a dict model",
+      "Every value of depth <= 2 / width <= 2 over 17 leaves and 7 key kinds round-trips (value-exact, fresh); chains to "
+      "depth 2000; every argument vector of length <= 2 reaches the callable in order; all 9-op histories to depth 4 agree "
+      "with a plain dict model.", "Equality as defined in the driver (NaN = NaN, sign of zero, 1 == 1.0, keys through str()).")
+claim("C12", "model_checking",
+      "breadth-first search of a reference model (dict per context + built-in flags) with state deduplication; every model "
+      "transition replayed from fresh real contexts and all contexts observed",
+      "Every transition of the model with 2 contexts to depth 3 (thorough: depth 4, and 3 contexts) over 17 operations and a "
+      "clock tick: outcome class of each step and the 9-probe state of every context equal the model (persistence, "
+      "isolation, recovery after syntax/thrown/limit errors).",
+      "Deduplication on the model state is sound because any implementation/model difference is itself reported.")
+claim("C13", "exploration",
+      "bounded exhaustive enumeration of operator trees (all pairs, triples in strata) printed with minimal parentheses, "
+      "one-trivia-insertion layouts, literal spellings and single deletions/replacements for rejection; V8 tables + metamorphic checks",
+      "All 3092 two-operator trees over 44 operators and 18k three-operator trees parse with ECMAScript precedence (value, "
+      "structure, min-vs-full parentheses); 120k single trivia insertions never change the outcome; literal spellings agree; "
+      "every bracket/quote/comment deletion and non-reference target is rejected.", _V8)
+claim("C14", "exploration",
+      "systematic scale sweep: 26 templates with closed-form results x n across the operand (255/256) and jump (65535/65536) "
+      "encoding boundaries located on the real compiler output",
+      "For 26 templates x 13 scale values and every n within +-3 of the 255- and 65535-byte boundaries (plus 2x, 4x) the "
+      "program yields the closed form or is refused by a JSError before its first statement runs.",
+      "Closed forms are hand-derived; sizes beyond 4x the boundary are not explored.")
+claim("C15", "exploration",
+      "enumeration over configurations: every program of a closure-heavy corpus in N separate interpreters with "
+      "PYTHONHASHSEED 0..N-1, all 24 orders of 4-program batches, cold vs warm process",
+      "1700+ closure programs give identical log/value/error under 16 (thorough 64) hash seeds, in every evaluation order "
+      "of 4-program batches, and after 1000 unrelated evaluations with a shifted clock.",
+      "Seeds beyond the range are not explored; the programs avoid Math.random/Date.now.")
+claim("C17", "model_checking",
+      "bounded exhaustive call grid (method x receiver x index/callback grid), exhaustive enumeration of all mutation "
+      "histories to depth 3-4 over aliased arrays, typed-array value/view grids; V8-derived tables",
+      "Every implemented Array method over 14 receivers x index grid x 23 callback forms, all 24^3 (and a 24^4 stratum) "
+      "mutation histories on two aliases, 9 typed-array kinds x 48 values and 81 view pairs agree with V8 after every step.", _V8)
+claim("C18", "exploration",
+      "bounded exhaustive grids: doubles (exponent x mantissa patterns, powers of ten, thresholds) x printing forms, numeric "
+      "string grammar x parsers, Math functions x special values; V8-derived tables (1 ulp for Math)",
+      "148k cases (thorough 567k): number-to-string in all forms and radices, toFixed/toPrecision/toExponential digit grids, "
+      "Number/unary plus/parseFloat/parseInt over a string grammar and radix grid, Math at special points agree with V8.", _V8)
+claim("C19", "exploration",
+      "bounded exhaustive enumeration of JSON token sequences (length <= 4, 5 in strata) and value trees (depth <= 2, 3 in "
+      "strata) through parse/stringify/round trip; V8-derived tables",
+      "All 204k four-token texts are accepted iff V8 accepts them with equal values; all value trees of depth <= 2 stringify, "
+      "re-parse and canonicalise like V8; non-representable positions and cycles behave as specified.", _V8)
+claim("C20", "model_checking",
+      "exhaustive enumeration of lastIndex histories (exec/test/assign/read) over flag sets and patterns with the state after "
+      "every step compared with the reference; product grid for regex-driven string methods; V8-derived tables",
+      "All histories to depth 3 over 12 operations (depth 4 over 8, deeper in strata) x 36 pattern/flag pairs and 118 "
+      "patterns x 4 flag sets x 31 subjects through match/replace/replaceAll/split/search (templates, function replacers, "
+      "limits, preset lastIndex) agree with V8 after every step.", _V8)
